@@ -16,6 +16,8 @@ pub mod path;
 mod sector;
 mod stream;
 mod stream_buffer;
+#[cfg(feature = "verif-hooks")]
+pub mod sync;
 mod timestamp;
 mod validate;
 mod version;
